@@ -767,6 +767,11 @@ func (t *Tree) Compile(file string, args []string, out io.Writer) (err error) {
 				}
 				for i, element := range n.Iterator2() {
 					properties[i].consumes, properties[i].s = optimizeAlternates(element)
+					if properties[i].s.Len() == 0 {
+						/* nothing to dispatch on (e.g. a reversed range, which never
+						   matches): leave the alternative where it is */
+						properties[i].consumes = false
+					}
 					/* the choice consumes only if every alternative does */
 					consumes = consumes && properties[i].consumes
 					s = s.Union(properties[i].s)
